@@ -155,7 +155,7 @@ def jobs_for(ctx):
         return max(1, int((t if ctx.thorough else q) * boost))
 
     # exhaustive kill points on the corpus projects (quick: 2 of them, rotating with the seed; thorough: all) …
-    pick = corpus if ctx.thorough else [corpus[(ctx.seed + i) % len(corpus)] for i in (1, 3)]
+    pick = corpus if ctx.thorough else [corpus[(ctx.seed + 1) % len(corpus)]]
     for c in pick:
         for i in range(4):
             jobs.append({"case": c, "mode": "all", "budget": 0, "seed": rng.randrange(1 << 30), "chunk": (i, 4)})
